@@ -13,10 +13,11 @@ open Circomspect Runner RunnerLemmas
 
 /-- Conservation: what is offered to the writer is the parse reports followed, per analysed
     definition and in analysis order, by the reports of its CFG generation and of the passes
-    — each exactly once, whichever stage produced it. -/
+    — each exactly once, whichever stage produced it — and (since 1121aa8) by the reports about the
+    main component, if there is one. -/
 theorem C03_conservation (p : Project) (order : List String) (hnd : order.Nodup)
     (hk : ∀ n ∈ order, p.known n = true) :
-    offered p order = p.parseReports ++ order.flatMap (expected p) := offered_eq p order hnd hk
+    offered p order = p.parseReports ++ order.flatMap (expected p) ++ p.mainReports.getD [] := offered_eq p order hnd hk
 
 /-- ... and "whether or not another template looked that definition up first": the lookups the
     passes perform have no influence on what is offered. -/
@@ -29,7 +30,7 @@ theorem C03_lookup_independent (p : Project) (lookups' : String → List String)
 /-- the batch handed to the writer for a definition is a function of that definition alone -/
 theorem C03_batches (p : Project) (order : List String) (hnd : order.Nodup)
     (hk : ∀ n ∈ order, p.known n = true) :
-    batches p order = p.parseReports :: order.map (expected p) := batches_eq p order hnd hk
+    batches p order = p.parseReports :: (order.map (expected p) ++ p.mainReports.toList) := batches_eq p order hnd hk
 
 /-- the three filters: a report is kept iff its level is at least `--level`, its id is not in
     `--allow`, and it is not located solely in files that were only included -/
@@ -72,9 +73,11 @@ def exR (i : String) (l : Nat) : Report := { id := i, level := l, located := tru
 def exP : Project :=
   { parseReports := [exR "P1004" 1], known := fun n => n == "A" || n == "B",
     gen := fun n => if n == "A" then (true, [exR "CS0001" 1]) else (true, []),
-    lookups := fun n => if n == "B" then ["A"] else [], passes := fun n => if n == "B" then [exR "CS0018" 1] else [] }
-example : (offered exP ["B", "A"]).map (·.id) = ["P1004", "CS0018", "CS0001"] := by decide
-example : (offered exP ["A", "B"]).map (·.id) = ["P1004", "CS0001", "CS0018"] := by decide
+    lookups := fun n => if n == "B" then ["A"] else [], passes := fun n => if n == "B" then [exR "CS0018" 1] else [],
+    mainReports := some [exR "CS0016" 1] }
+example : (offered exP ["B", "A"]).map (·.id) = ["P1004", "CS0018", "CS0001", "CS0016"] := by decide
+example : (offered exP ["A", "B"]).map (·.id) = ["P1004", "CS0001", "CS0018", "CS0016"] := by decide
 example : exitCode { level := 2, allow := [] } exP ["A", "B"] = 0 := by decide
+example : exitCode { level := 1, allow := ["CS0001", "CS0018", "P1004"] } exP ["A", "B"] = 1 := by decide
 
 end Circomspect.C03
